@@ -66,7 +66,7 @@ extern "C" void h_time_rotation()
   uint64_t next = first, ts = t0;
   for (uint32_t i = 0; i < NSTMT; i++)
   {
-    uint64_t d = vnd_range(0, 3 * 86400ull * NS);
+    uint64_t d = vnd_range(0, 3 * unit + NS);                         // dense, or gaps of up to three whole periods (stated bound)
     ts += d;
     uint32_t before = g_rot;
     bool rotated = s->_time_rotation(ts);
